@@ -121,7 +121,7 @@ def intoSamplingConfig (c : StmCfg) (size : Nat) : Except Err Cfg :=
   match c with
   | .freq f => .ok (.freq (F32.mul f (F32.ofNat size)))
   | .period p =>
-    if size = 0 then .error .panic             -- `p.as_nanos() % size as u128`: remainder by zero
+    if size = 0 then .error .stmPeriodInvalid  -- `size == 0 || p.as_nanos() % size as u128 != 0`
     else if p % size ≠ 0 then .error .stmPeriodInvalid
     else match durationDiv p size with
       | .error e => .error e
@@ -129,7 +129,8 @@ def intoSamplingConfig (c : StmCfg) (size : Nat) : Except Err Cfg :=
   | .samplingConfig s => .ok s
   | .freqNearest f => .ok (intoNearest (.freq (F32.mul f (F32.ofNat size))))
   | .periodNearest p =>
-    match durationDiv p size with
+    if size = 0 then .error .stmPeriodInvalid  -- refused before the division
+    else match durationDiv p size with
     | .error e => .error e
     | .ok q => .ok (intoNearest (.period q))
 
